@@ -9,7 +9,7 @@
    denotes ([phys_id]: no symbolic links); [r_failed_early r]: the log has
    errors when the write phase starts (scan, link, overwrite/duplicate checks,
    cancellation); [r_errors r]: the build reports errors (also on-end errors). *)
-From V Require Import Common.Base C17.WriteSM C17.Spec C17.Proofs C17.CompileProofs C17.DiskProofs C17.SpecProofs C17.IOFail C17.Findings.
+From V Require Import Common.Base C17.WriteSM C17.Spec C17.Proofs C17.CompileProofs C17.DiskProofs C17.SpecProofs C17.IOFail C17.PathModel C17.PathProofs C17.LinkProofs C17.Modes C17.Findings.
 
 (* ---- mechanism: validateBuildOptions ---- *)
 Theorem allow_overwrite_forced_only_without_write :
@@ -299,3 +299,109 @@ Theorem deletes_only_own_under_write_failure_refuted :
     exists p, In (EDelete p) (r_effects r2) /\ ~ In p (written_paths [r1]).
 Proof. exact deletes_only_own_under_write_failure_refuted_w. Qed.
 Print Assumptions deletes_only_own_under_write_failure_refuted.
+
+(* ---- the path layer (PathModel.v: esbuild's clean/join/rel/dir/base/ext,
+   PathRelativeToOutbase, template parsing and rendering, the entry point's
+   output path; every function below is the one the correspondence runs) ---- *)
+
+(* joining a relative path that has no parent-directory segment onto an
+   absolute output directory only appends path elements to the cleaned
+   directory: the output is inside the output directory *)
+Theorem output_inside_outdir :
+  forall outdir relp,
+    is_rooted outdir = true -> relp <> [] -> no_dotdot_seg relp = true ->
+    fs_join outdir relp = SL :: join_with SL (clean_segs outdir ++ filter proper (split_on SL relp)).
+Proof. exact fs_join_inside. Qed.
+Print Assumptions output_inside_outdir.
+
+(* the "../" -> "_.._/" rewrite of PathRelativeToOutbase removes every
+   parent-directory segment when they only form a leading run.
+   PARTIAL: the full statement (for every outbase and entry path the [dir]
+   part has no ".." segment) also needs "Rel of two cleaned absolute paths has
+   '..' only as a leading run"; that is evaluated on every correspondence case
+   (oracle relative-dir-has-dotdot), not proved. *)
+Theorem neutralise_no_dotdot_partial :
+  forall d0,
+    let d1 := map (fun c => if c =? 92 then SL else c) d0 in
+    let n := count_dotdot (length d1) d1 in
+    has_dd (skipn (n * 3) d1) = false -> has_dd (neutralise d0) = false.
+Proof. exact neutralise_no_dotdot. Qed.
+Print Assumptions neutralise_no_dotdot_partial.
+
+(* REFUTED: "inside the output directory whenever the templates contain no
+   parent-directory segment" - the [name] of the entry file "...js" is ".." *)
+Theorem template_without_dotdot_escapes_refuted :
+  exists tmpl outdir outbase entry ext,
+    no_dotdot_seg tmpl = true /\
+    let out := entry_out_path outdir (entry_template tmpl) outbase entry [] [] ext in
+    firstn (List.length (clean_segs outdir)) (clean_segs out) <> clean_segs outdir.
+Proof. exact template_without_dotdot_escapes_refuted_w. Qed.
+Print Assumptions template_without_dotdot_escapes_refuted.
+
+(* no_input_overwritten over the concrete path functions: for every template,
+   outbase, output directory, set of entry points (paths, explicit output
+   paths, hashes, extensions) and set of inputs, an entry point whose computed
+   output path equals an input path under esbuild's comparison makes Compile
+   report an error unless overwriting is allowed *)
+Theorem no_input_overwritten_concrete :
+  forall opt outdir tmpl outbase es ins lerr cl onend e,
+    to_stdout opt = false -> effective_allow opt = false -> In e es ->
+    In (canon (entry_out_path outdir tmpl outbase (e_path e) (e_custom e) (e_hash e) (e_ext e))) (map canon ins) ->
+    snd (compile opt (mkOutcome false ins false (linked_of_entries outdir tmpl outbase es) lerr cl onend)) = true.
+Proof. exact concrete_output_on_input_is_refused. Qed.
+Print Assumptions no_input_overwritten_concrete.
+
+(* "no symbolic link on the output paths" as a boolean over the modelled file
+   system: when every linked output path and every path of the hash table
+   denotes itself, the step is the step of the link-free file system, so every
+   theorem stated for [phys_id] holds for it *)
+Theorem link_free_step_is_plain_step :
+  forall phys fixed opt st oc,
+    link_free phys (map o_path (linked oc) ++ keys (latest st)) = true ->
+    step_gen phys fixed opt st oc = step_gen phys_id fixed opt st oc.
+Proof. exact step_gen_link_free. Qed.
+Print Assumptions link_free_step_is_plain_step.
+
+(* ---- two outputs, one path: the rule in full ---- *)
+(* two different linked files whose paths are equal under the key of the check
+   (equal cleaned paths, case variants, slash variants) pass only if both may
+   be merged and their contents are equal; otherwise Compile reports an error.
+   The key folds case on every platform, so on a case-insensitive file system
+   two differently-cased outputs never collide silently. *)
+Theorem two_outputs_one_path_reported :
+  forall opt oc kept,
+    cancel_early oc = false -> to_stdout opt = false -> compile opt oc = (kept, false) ->
+    forall o1 o2, In o1 (linked oc) -> In o2 (linked oc) -> o1 <> o2 -> ckey o1 = ckey o2 ->
+      o_merge o1 = true /\ o_merge o2 = true /\ o_data o1 = o_data o2.
+Proof. exact compile_two_on_one_path. Qed.
+Print Assumptions two_outputs_one_path_reported.
+
+(* REFUTED (the other side of folding case everywhere; observable on Linux):
+   of two mergeable case variants only the first is kept, so the exact path of
+   the second one - which the bundle refers to - is never written *)
+Theorem dedupe_keeps_exact_path_refuted :
+  exists outs kept o,
+    dedupe [] outs = (kept, []) /\ In o outs /\ ~ In (o_path o) (map o_path kept).
+Proof. exact dedupe_keeps_exact_path_refuted_w. Qed.
+Print Assumptions dedupe_keeps_exact_path_refuted.
+
+(* ---- modes: every way of starting a build goes through the same validation ---- *)
+Theorem allow_overwrite_forced_only_without_write_in_every_mode :
+  forall m w a s, effective_allow (mode_opts m w a s) = true <-> a = true \/ mode_write m w = false.
+Proof. exact mode_effective_allow. Qed.
+Print Assumptions allow_overwrite_forced_only_without_write_in_every_mode.
+
+(* the CLI's serve mode (constants regenerated from pkg/cli/cli_impl.go): never
+   refuses, never writes, never deletes *)
+Theorem cli_serve_mode_never_touches_disk :
+  forall phys w a s st oc st' r,
+    step phys (mode_opts CliServe w a s) st oc = (st', r) ->
+    effective_allow (mode_opts CliServe w a s) = true /\ disk st' = disk st /\ r_effects r = [].
+Proof. exact cli_serve_never_touches_disk. Qed.
+Print Assumptions cli_serve_mode_never_touches_disk.
+
+(* the CLI's build/watch mode always writes: inputs are protected unless --allow-overwrite *)
+Theorem cli_build_mode_allow_is_the_flag :
+  forall w a s, effective_allow (mode_opts CliBuild w a s) = a.
+Proof. exact cli_build_allow_is_the_flag. Qed.
+Print Assumptions cli_build_mode_allow_is_the_flag.
